@@ -83,6 +83,17 @@ CHECKS = {
           "regular-file read contract. Bounds: chunk loop unwound 4 (quick)/6 (thorough), cut paths counted; tree depth<=2, fan-out<=2; "
           "symlinks/permissions/real remote I/O outside."),
     technique="symbolic execution of the Python AST over a model file system + z3 (LIA, UF); replay on CPython with real temporary files"),
+ "C09": dict(
+    category="other", design_ref="DESIGN.md section 4 (C09)",
+    text=("Symbolic execution of the real vinegar.dump/load/_get_exception_class and Connection._box_exc/_unbox_exc with the two sender "
+          "switches and the three receiver switches as solver Bools: class resolution for every built-in exception class, non-exception "
+          "builtins, custom classes in imported / importable / unknown modules is compared with a specification table for all switch settings; "
+          "dump->load round trips for all ~70 built-in classes and four argument shapes (symbolic members) check class fidelity, argument "
+          "normalisation and gated traceback/version; crafted payloads must not import or run a constructor (import log + constructor canaries)."),
+    note=("Trusted: z3, interpreter, a three-module model of sys.modules/__import__ inside vinegar. Class and name spaces are finite exhaustive "
+          "choices, not solver variables (the property quantifies over finitely many built-in classes); the solver decides the switch space. "
+          "Known finding (recorded, not repaired): ExceptionGroup/BaseExceptionGroup cannot be rebuilt by load() on Python >= 3.11."),
+    technique="symbolic execution of the Python AST with symbolic configuration switches + z3; replay on CPython"),
 }
 
 NOT_YET = {}
